@@ -10,6 +10,10 @@ makes the k-th callback return an error.
 Mirrors the Go code statement group by statement group (DESIGN.md §3.6):
 `readUntil`, `hdrStep` (size/type/nextBoxStart/flags), `flush` (callback + reset when an
 mdat is complete), `deliverAll` (the two identical EOF branches).  Core Lean only.
+
+(`fix:` commit 67349d7: the real `readUntil` asks the reader for at most 1 MiB beyond the bytes that have arrived, so that
+the buffer is not sized by a declared box length.  That is a reader that delivers at most 1 MiB per call: by
+`c18_sched_indep` the callbacks and the outcome do not depend on it; the cap itself is not modelled.)
 -/
 namespace CP
 
